@@ -639,7 +639,8 @@ class IntermediateCodeGen(AbstractCodeGen):
                 )
 
             else:
-                hexval = binval and hex(int(binval, 2))[2:] or ''
+                # keep leading zero bits: pad to whole octets
+                hexval = binval and '%0*x' % ((len(binval) + 7) // 8 * 2, int(binval, 2)) or ''
                 outDict.update(value=hexval, format='hex')
 
         # quoted string
